@@ -256,7 +256,11 @@ func (s *Sched) Run(choose func(i int, enabled []int, last int) int, afterStep f
 }
 
 // Trace returns the granted steps.
-func (s *Sched) Trace() []string { s.mu.Lock(); defer s.mu.Unlock(); return append([]string(nil), s.trace...) }
+func (s *Sched) Trace() []string {
+	s.mu.Lock()
+	defer s.mu.Unlock()
+	return append([]string(nil), s.trace...)
+}
 
 // Step returns the current logical step counter.
 func (s *Sched) Step() int { s.mu.Lock(); defer s.mu.Unlock(); return s.steps }
